@@ -71,6 +71,7 @@ theorem instData_iff : ∀ (n : Nat) (v : Val), v.w ≤ n → (instData v = true
     | regexp s => simp [instData]; intro h; cases h
     | binary s => simp [instData]; intro h; cases h
     | tspan s => simp [instData]; intro h; cases h
+    | tstamp s => simp [instData]; intro h; cases h
     | sensitive s => simp [instData]; intro h; cases h
     | typ s => simp [instData]; intro h; cases h
     | obj s => simp [instData]; intro h; cases h
@@ -133,6 +134,7 @@ theorem instRich_iff : ∀ (n : Nat) (v : Val), v.w ≤ n → (instRich v = true
     | bool b => simp [instRich, isScalarVal]; exact IsRich.scalar _ trivial
     | regexp s => simp [instRich, isScalarVal]; exact IsRich.scalar _ trivial
     | tspan s => simp [instRich, isScalarVal]; exact IsRich.scalar _ trivial
+    | tstamp s => simp [instRich, isScalarVal]; exact IsRich.scalar _ trivial
     | sensitive s => simp [instRich, isScalarVal]; intro h; cases h with | scalar _ h' => cases h'
 
 end Pcore.Lat
